@@ -70,6 +70,12 @@ CLAIMED.update({
   note="Not yet under contract: deadline arithmetic of SET EX/PX/EXAT/PXAT and EXPIRE* handlers (Duration overflow), TTL/PTTL/EXPIRETIME replies, keep-vs-clear TTL per mutator, DBSIZE counting expired keys, bucket iteration paths (KEYS/SCAN filter expiry in their callbacks, not checked here). Wall-clock agreement is outside this family.",
   design="DESIGN.md §6 C07"),
 })
+CLAIMED.update({
+ "C03": dict(
+  text="Deductive proof, for lists of every length, that the seven link/unlink primitives of the real doubly linked list (lpush/rpush/lpop/rpop/remove/linsertBefore/linsertAfter ...Unlocked) preserve the representation invariant (count, head, tail, prev/next links, one position per node, one owner per node — stated over a ghost sequence view with quantifiers) and implement exactly insert-at / delete-at on that sequence, i.e. element order is preserved; the list getters hand out well-formed lists, and LPUSH/RPUSH(X)/LPOP/RPOP/LINSERT (pivot search loop invariant) keep the invariant through their loops and call the primitives only within their preconditions. A bounded-refutation harness (all sequences of up to 3 operations on lists of up to 3 elements, incl. LMOVE with source = destination, LREM, LSET, LTRIM, negative indexes, run natively on the real code against a slice model) is used only to find a concrete failing input when an obligation becomes undecided; it is labelled bounded and never counted as proved. LMOVE k k on a one-element list lost the element and was repaired.",
+  note="Index normalisation and replies of LRANGE/LINDEX/LTRIM/LSET/LPOS/LREM/LMOVE/LMPOP are not proved (only covered by the bounded harness); the ghost instrumentation is bound to statement texts of the primitives, so a restructured helper makes its contract unbound (reported UNDECIDED, then the harness looks for a witness). 'Stored lists are well formed and smaller than 2^56 nodes' is a stated (free) assumption at the accessor.",
+  design="DESIGN.md §6 C03"),
+})
 NOT_BUILT = {}
 ALL = ["C%02d" % i for i in range(1, 21)]
 
